@@ -339,7 +339,7 @@ func crashKey(es string) string {
 
 var (
 	gomaxprocs = "1"
-	watchdog   = 120 * time.Second
+	watchdog   = 240 * time.Second
 	tierName   = "quick"
 )
 
